@@ -3,6 +3,7 @@ package sim
 // One simulated run = one seed = one synctest bubble (DESIGN.md §3).
 
 import (
+	"runtime/debug"
 	"flag"
 	"fmt"
 	"io"
@@ -22,7 +23,20 @@ var pinOnce sync.Once
 // recovered panics reported through utilruntime.PanicHandlers (process-wide; a
 // bubble resets it before it starts)
 var crashReports []string
+var crashStacks []string
 var crashMu sync.Mutex
+
+// takeCrashReports returns and clears the panics that utilruntime.HandleCrash
+// recovered since the last call (with ReallyCrash, the shipped default, each of
+// them kills the process; the harness runs with ReallyCrash off so that it
+// survives to report them).
+func takeCrashReports() (reports, stacks []string) {
+	crashMu.Lock()
+	defer crashMu.Unlock()
+	reports, stacks = crashReports, crashStacks
+	crashReports, crashStacks = nil, nil
+	return
+}
 
 // Pin sets the determinism pins of DESIGN.md §3.7 (harness side only).
 func Pin() {
@@ -34,6 +48,7 @@ func Pin() {
 		utilruntime.PanicHandlers = []func(interface{}){func(r interface{}) {
 			crashMu.Lock()
 			crashReports = append(crashReports, fmt.Sprint(r))
+			crashStacks = append(crashStacks, string(debug.Stack()))
 			crashMu.Unlock()
 		}}
 		fs := flag.NewFlagSet("klog", flag.ContinueOnError)
@@ -93,6 +108,7 @@ type RelInfo struct {
 // RunOne executes spec inside a fresh bubble.
 func RunOne(t *testing.T, spec RunSpec) (res *Result) {
 	Pin()
+	takeCrashReports()
 	res = &Result{Spec: spec}
 	func() {
 		defer func() {
